@@ -26,6 +26,14 @@ pub struct Conn {
     pub eof_ns: Option<u64>,
     /// local address, remembered past close
     pub local: Option<SocketAddr>,
+    /// TLS client layer: when present `rx` / `tx` hold application bytes and
+    /// the records travel through `raw_tx`
+    pub tls: Option<Box<rustls::ClientConnection>>,
+    raw_tx: Vec<u8>,
+    pub tls_error: Option<String>,
+    /// sha-256 of the leaf certificate the server presented, negotiated ALPN
+    pub tls_peer_cert: Option<String>,
+    pub tls_alpn: Option<String>,
 }
 
 impl Conn {
@@ -33,10 +41,10 @@ impl Conn {
         stream.set_nonblocking(true).ok();
         stream.set_nodelay(true).ok();
         let local = stream.local_addr().ok();
-        Conn { stream: Some(stream), rx: vec![], eof: false, reset: false, tx: vec![], sent: 0, first_rx_ns: None, last_rx_ns: None, eof_ns: None, local }
+        Conn { stream: Some(stream), rx: vec![], eof: false, reset: false, tx: vec![], sent: 0, first_rx_ns: None, last_rx_ns: None, eof_ns: None, local, tls: None, raw_tx: vec![], tls_error: None, tls_peer_cert: None, tls_alpn: None }
     }
     pub fn closed() -> Conn {
-        Conn { stream: None, rx: vec![], eof: true, reset: false, tx: vec![], sent: 0, first_rx_ns: None, last_rx_ns: None, eof_ns: None, local: None }
+        Conn { stream: None, rx: vec![], eof: true, reset: false, tx: vec![], sent: 0, first_rx_ns: None, last_rx_ns: None, eof_ns: None, local: None, tls: None, raw_tx: vec![], tls_error: None, tls_peer_cert: None, tls_alpn: None }
     }
     /// read whatever is available; true if anything new was observed
     pub fn pump_read(&mut self, now: u64) -> bool {
@@ -54,10 +62,54 @@ impl Conn {
                     return true;
                 }
                 Ok(n) => {
-                    self.rx.extend_from_slice(&buf[..n]);
-                    self.first_rx_ns.get_or_insert(now);
-                    self.last_rx_ns = Some(now);
                     progressed = true;
+                    match self.tls.as_mut() {
+                        None => {
+                            self.rx.extend_from_slice(&buf[..n]);
+                            self.first_rx_ns.get_or_insert(now);
+                            self.last_rx_ns = Some(now);
+                        }
+                        Some(tls) => {
+                            let mut input = &buf[..n];
+                            while !input.is_empty() {
+                                if tls.read_tls(&mut input).is_err() {
+                                    break;
+                                }
+                                match tls.process_new_packets() {
+                                    Ok(state) => {
+                                        let mut plain = vec![0u8; state.plaintext_bytes_to_read()];
+                                        if !plain.is_empty() {
+                                            let _ = tls.reader().read_exact(&mut plain);
+                                            self.rx.extend_from_slice(&plain);
+                                            self.first_rx_ns.get_or_insert(now);
+                                            self.last_rx_ns = Some(now);
+                                        }
+                                        if state.peer_has_closed() {
+                                            self.eof = true;
+                                            self.eof_ns = Some(now);
+                                        }
+                                    }
+                                    Err(e) => {
+                                        self.tls_error = Some(e.to_string());
+                                        self.reset = true;
+                                        self.eof_ns = Some(now);
+                                        return true;
+                                    }
+                                }
+                            }
+                            if self.tls_peer_cert.is_none() {
+                                if let Some(certs) = tls.peer_certificates() {
+                                    if let Some(leaf) = certs.first() {
+                                        use sha2::Digest;
+                                        self.tls_peer_cert = Some(hex::encode(sha2::Sha256::digest(leaf.as_ref())));
+                                    }
+                                }
+                            }
+                            if self.tls_alpn.is_none() {
+                                self.tls_alpn = tls.alpn_protocol().map(|p| String::from_utf8_lossy(p).into_owned());
+                            }
+                        }
+                    }
                 }
                 Err(e) if e.kind() == ErrorKind::WouldBlock => return progressed,
                 Err(e) if e.kind() == ErrorKind::Interrupted => continue,
@@ -71,6 +123,9 @@ impl Conn {
     }
     /// push queued bytes; true if anything was written
     pub fn pump_write(&mut self) -> bool {
+        if self.tls.is_some() {
+            return self.pump_write_tls();
+        }
         let Some(s) = self.stream.as_mut() else { return false };
         let mut progressed = false;
         while !self.tx.is_empty() {
@@ -91,6 +146,58 @@ impl Conn {
             }
         }
         progressed
+    }
+    fn pump_write_tls(&mut self) -> bool {
+        let Some(s) = self.stream.as_mut() else { return false };
+        let tls = self.tls.as_mut().unwrap();
+        let mut progressed = false;
+        if !self.tx.is_empty() && !tls.is_handshaking() {
+            if let Ok(n) = tls.writer().write(&self.tx) {
+                self.tx.drain(..n);
+                self.sent += n;
+                progressed |= n > 0;
+            }
+        }
+        while tls.wants_write() {
+            if tls.write_tls(&mut self.raw_tx).is_err() {
+                break;
+            }
+        }
+        while !self.raw_tx.is_empty() {
+            match s.write(&self.raw_tx) {
+                Ok(0) => break,
+                Ok(n) => {
+                    self.raw_tx.drain(..n);
+                    progressed = true;
+                }
+                Err(e) if e.kind() == ErrorKind::WouldBlock => break,
+                Err(e) if e.kind() == ErrorKind::Interrupted => continue,
+                Err(_) => {
+                    self.reset = true;
+                    self.raw_tx.clear();
+                    self.tx.clear();
+                    break;
+                }
+            }
+        }
+        progressed
+    }
+    pub fn handshaking(&self) -> bool {
+        self.tls.as_ref().is_some_and(|t| t.is_handshaking()) && !self.reset && !self.eof
+    }
+    /// wrap the connection in a TLS client session (any certificate is accepted and recorded)
+    pub fn start_tls(&mut self, sni: &str, alpn: &[&str]) {
+        let provider = std::sync::Arc::new(rustls::crypto::ring::default_provider());
+        let mut cfg = rustls::ClientConfig::builder_with_provider(provider.clone())
+            .with_safe_default_protocol_versions()
+            .expect("tls versions")
+            .dangerous()
+            .with_custom_certificate_verifier(std::sync::Arc::new(AcceptAny(provider)))
+            .with_no_client_auth();
+        cfg.alpn_protocols = alpn.iter().map(|a| a.as_bytes().to_vec()).collect();
+        let name = rustls::pki_types::ServerName::try_from(sni.to_owned()).expect("server name");
+        cfg.enable_sni = !matches!(name, rustls::pki_types::ServerName::IpAddress(_));
+        self.tls = Some(Box::new(rustls::ClientConnection::new(std::sync::Arc::new(cfg), name).expect("tls client")));
     }
     pub fn half_close(&mut self) {
         if let Some(s) = self.stream.as_ref() {
@@ -115,6 +222,30 @@ impl Conn {
     }
 }
 
+#[derive(Debug)]
+struct AcceptAny(std::sync::Arc<rustls::crypto::CryptoProvider>);
+impl rustls::client::danger::ServerCertVerifier for AcceptAny {
+    fn verify_server_cert(
+        &self,
+        _end_entity: &rustls::pki_types::CertificateDer<'_>,
+        _intermediates: &[rustls::pki_types::CertificateDer<'_>],
+        _server_name: &rustls::pki_types::ServerName<'_>,
+        _ocsp: &[u8],
+        _now: rustls::pki_types::UnixTime,
+    ) -> Result<rustls::client::danger::ServerCertVerified, rustls::Error> {
+        Ok(rustls::client::danger::ServerCertVerified::assertion())
+    }
+    fn verify_tls12_signature(&self, message: &[u8], cert: &rustls::pki_types::CertificateDer<'_>, dss: &rustls::DigitallySignedStruct) -> Result<rustls::client::danger::HandshakeSignatureValid, rustls::Error> {
+        rustls::crypto::verify_tls12_signature(message, cert, dss, &self.0.signature_verification_algorithms)
+    }
+    fn verify_tls13_signature(&self, message: &[u8], cert: &rustls::pki_types::CertificateDer<'_>, dss: &rustls::DigitallySignedStruct) -> Result<rustls::client::danger::HandshakeSignatureValid, rustls::Error> {
+        rustls::crypto::verify_tls13_signature(message, cert, dss, &self.0.signature_verification_algorithms)
+    }
+    fn supported_verify_schemes(&self) -> Vec<rustls::SignatureScheme> {
+        self.0.signature_verification_algorithms.supported_schemes()
+    }
+}
+
 /// One instruction of a peer script.
 #[derive(Clone, Debug)]
 pub enum Step {
@@ -129,6 +260,10 @@ pub enum Step {
     ExpectBytes(usize),
     /// wait until `n` complete HTTP/1.1 messages have been received in total
     ExpectH1 { count: usize, responses: bool },
+    /// client: start a TLS session on the connection (SNI, ALPN offer)
+    StartTls { sni: String, alpn: Vec<String> },
+    /// wait until the TLS handshake completed or failed
+    ExpectHandshake,
     /// wait for end of stream (FIN or RST) from the other side
     ExpectEof,
     HalfClose,
@@ -239,6 +374,10 @@ impl Peer {
                         Err(_) => break,
                     }
                 }
+                Step::Send { .. } if self.conn.stream.is_none() => {
+                    // nothing to send on: the connection never existed or is gone
+                    self.pc += 1;
+                }
                 Step::Send { bytes, splits } => {
                     let valid: Vec<usize> = splits.into_iter().filter(|s| *s > 0 && *s < bytes.len()).collect();
                     let c = ctx.chooser.choose(&format!("{}:send-split", self.name), valid.len() as u32 + 1);
@@ -275,6 +414,22 @@ impl Peer {
                     } else {
                         break;
                     }
+                }
+                Step::StartTls { sni, alpn } => {
+                    let a: Vec<&str> = alpn.iter().map(|s| s.as_str()).collect();
+                    if self.conn.stream.is_some() {
+                        self.conn.start_tls(&sni, &a);
+                        self.conn.pump_write();
+                    }
+                    self.pc += 1;
+                    progressed = true;
+                }
+                Step::ExpectHandshake => {
+                    if self.conn.handshaking() {
+                        progressed |= self.conn.pump_write();
+                        break;
+                    }
+                    self.pc += 1;
                 }
                 Step::ExpectEof => {
                     if self.conn.eof || self.conn.reset || self.conn.stream.is_none() {
